@@ -1,11 +1,183 @@
-// Package c04: correspondence ops for C04 (stub, not yet built).
+// Package c04: new capacity is opened only when existing capacity cannot admit the pod — two-pass histories through the
+// real provisioner, lifecycle controller and cluster state, judged by the Lean specification.
 package c04
 
 import (
+	"encoding/json"
+	"fmt"
+	"math/rand/v2"
+
 	"verifharness/internal/core"
 	"verifharness/internal/registry"
+	"verifharness/internal/world"
 )
 
 func init() { registry.Register("C04", Ops) }
 
-func Ops() []*core.Op { return nil }
+// implPass: one real Provisioner.Schedule with the commit trace.
+func implPass(raw json.RawMessage) (any, error) {
+	var s world.Scenario
+	if err := json.Unmarshal(raw, &s); err != nil {
+		return nil, err
+	}
+	h, err := newHist(&HistIn{Scn: s})
+	if err != nil {
+		return nil, err
+	}
+	h.w.Cluster.SetSynced(true)
+	p, _ := h.pass("single")
+	return p, nil
+}
+
+var passOpts = world.GenOpts{InterPod: 0.1, NodeAffinity: 0.4, Existing: 0.85, Limits: 0.15, MaxPods: 8}
+
+func genPass(r *rand.Rand, t core.Tier) any {
+	s := world.GenScenario(r, passOpts)
+	singleTerm(r, s)
+	// small pods next to partly filled nodes: the interesting question is whether a node still has room
+	for i := range s.Pods {
+		if r.Float64() < 0.3 {
+			s.Pods[i].CPU = int64(100 * (1 + r.IntN(6)))
+		}
+	}
+	// nodes are marked for deletion at every lifecycle stage, not only once initialized
+	for i := range s.Nodes {
+		if s.Nodes[i].Pool != "" && r.Float64() < 0.08 {
+			s.Nodes[i].Deleting = true
+		}
+	}
+	return s
+}
+
+func histLabels(raw json.RawMessage, impl any) []string {
+	var in HistIn
+	json.Unmarshal(raw, &in)
+	m, _ := impl.(map[string]any)
+	var l []string
+	created := 0
+	if n, ok := m["created"].(json.Number); ok {
+		x, _ := n.Int64()
+		created = int(x)
+	}
+	l = append(l, fmt.Sprintf("created=%d", min(created, 4)))
+	passes, _ := m["passes"].([]any)
+	l = append(l, fmt.Sprintf("pass2-runs=%d", len(passes)))
+	for _, p := range passes {
+		pm, _ := p.(map[string]any)
+		o, _ := pm["outcome"].(map[string]any)
+		c, _ := o["claims"].([]any)
+		if len(c) > 0 {
+			l = append(l, "pass2-opened-new@"+fmt.Sprint(pm["stage"]))
+		}
+	}
+	if in.Gate {
+		l = append(l, "gate-reconcile")
+	}
+	if in.MarkStage != "" {
+		l = append(l, "marked-for-deletion@"+in.MarkStage)
+	}
+	if in.Kubelet.NoStatus {
+		l = append(l, "kubelet:no-status")
+	}
+	if len(in.Kubelet.ZeroAlloc) > 0 {
+		l = append(l, "kubelet:zero-alloc")
+	}
+	if in.Kubelet.NotReadyTaint {
+		l = append(l, "kubelet:not-ready-taint")
+	}
+	if in.Kubelet.FullTaints {
+		l = append(l, "kubelet:full-taints")
+	}
+	if in.Kubelet.BareLabels {
+		l = append(l, "kubelet:bare-labels")
+	}
+	for _, p := range in.Scn.Pools {
+		if len(p.StartupTaints) > 0 {
+			l = append(l, "pool-startup-taints")
+			break
+		}
+	}
+	if len(in.Scn.DaemonSets) > 0 {
+		l = append(l, "daemonsets")
+	}
+	if s, _ := m["launchErr"].(string); s != "" {
+		l = append(l, "launch-error")
+	}
+	return l
+}
+
+func Ops() []*core.Op {
+	return []*core.Op{
+		viewOp(),
+		syncedOp(),
+		{
+			Name: "c04.history",
+			Doc:  "two-pass histories through the REAL provisioner: Provisioner.Schedule (commit trace) -> Provisioner.CreateNodeClaims/Create -> Cluster.Synced / Provisioner.Reconcile gate -> real lifecycle controller (launch / registration / initialization) against a provider that launches an adversarially chosen permitted (instance type, offering) -> state informer -> Provisioner.Schedule again at every lifecycle stage with the same pods pending; judged by Karp.Spec.NeedCapacity",
+			N:    func(t core.Tier) int { return map[core.Tier]int{core.Quick: 500, core.Thorough: 5000}[t] },
+			Gen:  genHistory,
+			Impl: implHistory,
+			Rule: "non-trivial = pass 1 created at least one NodeClaim and pass 2 ran at all four lifecycle stages",
+			Nontrivial: func(raw json.RawMessage, impl any) bool {
+				m, _ := impl.(map[string]any)
+				p, _ := m["passes"].([]any)
+				return len(p) == 4
+			},
+			Labels:    histLabels,
+			Signature: func(raw json.RawMessage, impl any) string { return "history" },
+			Shrink:    shrinkHistory,
+		},
+		{
+			Name: "c04.repass",
+			Doc:  "the same two-pass histories, judged by the STRICT consequence clause of the property: a pod that pass 1 placed on capacity which is still there (and can hold it) is not put on a new NodeClaim when provisioning is re-run at any lifecycle stage",
+			N:    func(t core.Tier) int { return map[core.Tier]int{core.Quick: 120, core.Thorough: 700}[t] },
+			Gen:  genHistory,
+			Impl: implHistory,
+			Rule: "non-trivial = pass 1 created at least two NodeClaims (or one next to an existing node) and pass 2 ran at all four stages",
+			Nontrivial: func(raw json.RawMessage, impl any) bool {
+				var in HistIn
+				json.Unmarshal(raw, &in)
+				m, _ := impl.(map[string]any)
+				p, _ := m["passes"].([]any)
+				l, _ := m["launched"].([]any)
+				return len(p) == 4 && len(l)+len(in.Scn.Nodes) >= 2
+			},
+			Labels:    histLabels,
+			Signature: func(raw json.RawMessage, impl any) string { return "repass" },
+			Shrink:    shrinkHistory,
+		},
+		{
+			Name: "c04.pass",
+			Doc:  "single real Provisioner.Schedule passes with the commit trace on clusters with existing / in-flight (claim, unregistered, registered, initialized) / unmanaged / deleting nodes, bound pods and daemonsets: every NodeClaim opened for a pod of the property's class must be needed at that moment; deleting nodes receive nothing",
+			N:    func(t core.Tier) int { return map[core.Tier]int{core.Quick: 600, core.Thorough: 8000}[t] },
+			Gen:  genPass,
+			Impl: implPass,
+			Rule: "non-trivial = the pass opened at least one NodeClaim while the cluster had at least one active node",
+			Nontrivial: func(raw json.RawMessage, impl any) bool {
+				var s world.Scenario
+				json.Unmarshal(raw, &s)
+				m, _ := impl.(map[string]any)
+				o, _ := m["outcome"].(map[string]any)
+				c, _ := o["claims"].([]any)
+				return len(c) > 0 && len(s.Nodes) > 0
+			},
+			Labels: func(raw json.RawMessage, impl any) []string {
+				var s world.Scenario
+				json.Unmarshal(raw, &s)
+				m, _ := impl.(map[string]any)
+				o, _ := m["outcome"].(map[string]any)
+				c, _ := o["claims"].([]any)
+				e, _ := o["existing"].([]any)
+				l := []string{fmt.Sprintf("nodes=%d", len(s.Nodes)), fmt.Sprintf("new-claims=%d", min(len(c), 4)), fmt.Sprintf("existing-placements=%d", min(len(e), 3))}
+				for _, n := range s.Nodes {
+					l = append(l, "stage="+n.Stage)
+					if n.Deleting {
+						l = append(l, "deleting-node")
+					}
+				}
+				return l
+			},
+			Signature: func(raw json.RawMessage, impl any) string { return "pass" },
+			Shrink:    shrinkPass,
+		},
+	}
+}
